@@ -192,6 +192,9 @@ def fixed_corpus():
     add(D([A2, B2], nest(cross('A', 'A'), cross('B', 'B'), [['AtMostKInARow', 1, 'B', 'b0']])))
     add(D([A2, B2], nest(cross('A', 'A'), repeat(cross('B', 'B'), [['MinimumTrials', 4]]))))
     add(D([A2, B2, C2], nest(cross('A', 'A'), multi('BC', ['B', 'C']))))
+    add(D([A2, B2, CW], nest(cross('A', 'A'), cross('BC', 'B', [['AtMostKInARow', 1, 'C', 'c0']]))))
+    add(D([A2, B2, CW], nest(cross('AC', 'A', [['ExactlyK', 1, 'C', 'c1']]), cross('B', 'B'))))
+    add(D([A2, B2, CW], nest(cross('A', 'A'), cross('BC', 'B'))))
     return out
 
 
